@@ -2,6 +2,7 @@
 (* Exports the exhaustive document families as ndjson (one entry per line:  *)
 (* the document, its perturbations, its permutations).  Run by ./check gen. *)
 EXTENDS Universe, Json, IOUtils
+FieldOrder == [k |-> 0, v |-> 0]   \* must stay the first definition of a root module (JsonValue.tla)
 
 Dir == IOEnv.JDV_OUT
 Out(name, S) == ndJsonSerialize(Dir \o "/" \o name \o ".ndjson", Export(S))
